@@ -186,9 +186,6 @@ Proof.
 Qed.
 
 (* ---------- well-formed initial networks ---------- *)
-Definition mk_net (nb : list (config * list bool)) (ths : list thread) (N : nat) : net :=
-  mkNet (map (fun cd => (fst cd, init (fst cd) (snd cd) (chunk_msgs N) None 0)) nb) ths.
-
 Lemma net_of_mk w N :
   net_of w N = mk_net (map (fun kcd => (snd (fst kcd), snd kcd)) (w_boxes w)) (map snd (w_threads w)) N.
 Proof.
